@@ -394,7 +394,7 @@ fn big_dims(c: &BigCase) -> (usize, usize, usize) {
     if c.stride % 16 == 5 {
         return (if c.wide { 35 } else { 17 }, [65_535usize, 65_536, 65_537, 70_001][c.n_sel as usize % 4], 12 + c.rows_sel as usize % 30);
     }
-    // one case in sixteen: a long table of two samples that is constant except for two rows a given distance apart
+    // one case in sixteen: a long table of two samples that is constant except for two rows
     if c.stride % 16 == 9 {
         return (if c.wide { 35 } else { 17 }, 2, 70_000 + c.rows_sel as usize % 2000);
     }
@@ -409,7 +409,8 @@ fn check_big(c: &BigCase, ctx: &Ctx) -> Outcome {
     let mut t = big_symbol_table(k, n, rows, c.salt, c.pgap, c.pamb, c.stride);
     let sparse = c.stride % 16 == 9;
     if sparse {
-        // rows p and p + d share a symbol (R) that occurs nowhere in between; d on and next to 2^8 and 2^16
+        // two rows share a symbol (R) that occurs nowhere else (in the model's row order d rows apart; the file stores
+        // rows in the hash order of the build, so the distance in the file is whatever that order makes of it)
         let d = [255usize, 256, 65_534, 65_535, 65_535, 65_536][c.n_sel as usize % 6];
         let p = 100 + (c.salt % 3000) as usize;
         for (i, r) in t.rows.values_mut().enumerate() {
@@ -457,7 +458,7 @@ fn check_big(c: &BigCase, ctx: &Ctx) -> Outcome {
             if rows % 1024 == 0 || rows % 256 == 0 { cl.push("rows_on_block_size"); }
             if c.via_cli { cl.push("cli"); }
             if n >= 65_535 { cl.push(">=65535_samples"); }
-            if sparse { cl.push("two_variable_rows_a_set_distance_apart_in_a_constant_table"); }
+            if sparse { cl.push("two_variable_rows_in_a_long_constant_table"); }
             pass((removed > 0 && kept > 0) || masked > 0, key_of(&(k, n, rows, c.salt, c.pgap, c.pamb, &c.flags, c.via_cli)), cl)
         }
     }
